@@ -22,6 +22,10 @@ ASSUMPTIONS = [
 NONTRIVIAL_FLOOR = {"quick": 150, "thorough": 1500}
 
 
+# thorough tier: coverage-guided (atheris) drive of the same generator and oracle: kind -> (shards, cases per shard)
+FUZZ = {"generated": (8, 1500)}
+
+
 def plan(tier):
     total = 2000 if tier == "quick" else 40000
     return [("generated", 16, total // 16)]
